@@ -3,6 +3,7 @@ package main
 import (
 	"bufio"
 	"fmt"
+	"sort"
 	"strings"
 
 	"github.com/evolbioinfo/gotree/io/newick"
@@ -201,3 +202,5 @@ func feed(ts []*tree.Tree) chan tree.Trees {
 	mcrt.Close(ch)
 	return ch
 }
+
+func sortStrings(s []string) { sort.Strings(s) }
